@@ -16,6 +16,7 @@ PROPS = {
     'C20': {'units': ['gad', 'fri'], 'kani': [], 'only': {'fri': r'evaluate_polynomial|circuit_exp_by_constant|lemma_'}},
     'C07': {'units': ['fri', 'shape'], 'kani': [], 'only': {'shape': r'verify_fri_circuit'}, 'exclude': r'possible (bit shift|arithmetic)'},
     'C05': {'units': ['chal'], 'kani': [], 'exclude': r'canonical_width'},
+    'C06': {'units': ['bind'], 'kani': []},
     'C12': {'units': ['bits', 'chal'], 'kani': [], 'only': {'chal': r'canonical_width'}},
     'C15': {'units': ['shape'], 'kani': []},
     'C13': {'units': ['sym'], 'kani': []},
@@ -162,7 +163,7 @@ META['C09'] = {
 NOT_APPLICABLE = {
     'C01': 'whole-verifier equivalence with the external native verifier (p3-uni-stark / p3-batch-stark): needs a relational spec of ~1.5 kLoC of dependency code across four generic traits; no per-function contract within reach expresses it. Its parts are decided under C05/C07/C08/C13/C14/C15/C20.',
 }
-for _p in ['C06', 'C10', 'C14', 'C17', 'C18']:
+for _p in ['C10', 'C14', 'C17', 'C18']:
     NOT_APPLICABLE.setdefault(_p, 'not reached yet: kernel designed in DESIGN.md §5 but its contracts are not built; not claimed')
 META['C13'] = {
     'technique': 'Verus contracts on the extracted real symbolic compiler (work-stack walk) and the alpha-folding loops',
@@ -174,6 +175,18 @@ META['C13'] = {
     'note': 'compile_ext is an ASSUMED callee contract of the same shape (not under contract). The prefix of eval_folded_circuit (AirLayout, p3 get_symbolic_constraints) is opaque: the folding part is a '
             'slice extraction (R13) with the two constraint lists as parameters. Assumed: the cache key `node as *const _` identifies one node (NodeKey abstraction); p3-air expression types mirrored in the '
             'prelude with Box instead of Arc; variables address existing opened values inside the two-row window (vars_in_range); builder arithmetic contracts.',
+}
+
+META['C06'] = {
+    'technique': 'Verus contracts on the extracted real challenger and permutation wrappers: taint (pinned-by-the-proof) representation invariant over a ghost set in the builder',
+    'text': 'Deductive proof of a taint invariant, for every history of observe / sample / clear and both permutation families and packings: every target the sponge feeds into its next permutation '
+            '(the whole tracked state on the extension path; the rate part plus the in-table chain on the D=1 path) and every buffered output is pinned, i.e. its value is fixed in every accepted proof by '
+            'constants, public values and relation-checked operations over pinned operands; hence every sampled target is pinned to everything observed before it. The bus exposure of one permutation row is '
+            'a contract transcribed from add_poseidon_perm_inner / the executor; the four add_poseidon{1,2}_perm_for_challenger{,_base} wrappers, the four duplexing back ends, duplexing, init, observe, sample '
+            'and clear are proved against it. The tests only run honest witnesses, which cannot distinguish a pinned target from a free one.',
+    'note': 'Assumed (trusted): which outputs of a permutation row are created on the witness bus (ext_perm_post / base_perm_post); taint rules of builder primitives, recompose and the base-coefficient '
+            'decomposition; D=1 path: no foreign sponge-table row between two permutations of one challenger; configuration geometry fits WIDTH/RATE; permutation tables enabled. '
+            'KNOWN FINDING C06-ext-capacity-unbound: on the D>1 path the capacity limbs handed back by the wrappers are not exposed, so capacity_outputs_pinned fails (forged proof in findings/).',
 }
 
 NOT_APPLICABLE['C04'] = ('soundness of the STARK / LogUp / FRI argument behind "an accepted proof attests a satisfying assignment" is a cryptographic statement no per-function contract here can state; '
